@@ -135,8 +135,9 @@ def _digests(pid, n, workers):
     out = [None] * n
     with cf.ProcessPoolExecutor(max_workers=workers, mp_context=ctx, initializer=core._winit,
                                 initargs=(pid, env)) as ex:
-        futs = [ex.submit(core._wrun, (i, core.derive_seed(977, pid, 'quick', i), 'quick')) for i in range(n)]
+        futs = [ex.submit(core._wrun, (i, 'seed', core.derive_seed(977, pid, 'quick', i), 'quick')) for i in range(n)]
         for f in futs:
-            i, seed, case, o = f.result()
+            i, kind, case, o = f.result()
             out[i] = o['digest'] if not o['harness'] else 'HARNESS:' + o['harness'][:80]
+    core.kill_all_pools()
     return out
